@@ -44,6 +44,9 @@ type Case struct {
 	Dirs    dirConfig `json:"directories"`
 	Decoys  bool      `json:"decoys"`
 	Api     string    `json:"name_api"` // ForSpec | ByParts
+	// Reconf: the cache has a past - created for another directory, used to write and remove a
+	// Spec there, then reconfigured to the directory list under test.
+	Reconf bool `json:"cache_reconfigured_after_use,omitempty"`
 }
 
 type snap map[string]string // path -> "d" | "f:<hash>" | "l:<target>"
@@ -187,7 +190,23 @@ func eval(c Case, sandbox string) hx.Result {
 				}
 			}
 		}
-		cache, _ := cdi.NewCache(cdi.WithSpecDirs(dirs...), cdi.WithAutoRefresh(false))
+		var cache *cdi.Cache
+		if c.Reconf {
+			prev := filepath.Join(base, "dprev")
+			cache, _ = cdi.NewCache(cdi.WithSpecDirs(filepath.Join(base, "dprev0"), prev), cdi.WithAutoRefresh(false))
+			if err := cache.WriteSpec(rawSpec("warm.org/up", "warm"), "warmup"); err != nil {
+				return fail("reconf:warm-up-write-fails", err.Error(), nil, nil)
+			}
+			_ = cache.Refresh()
+			if err := cache.RemoveSpec("warmup"); err != nil {
+				return fail("reconf:warm-up-remove-fails", err.Error(), nil, nil)
+			}
+			if err := cache.Configure(cdi.WithSpecDirs(dirs...)); err != nil {
+				return fail("reconf:configure-fails", err.Error(), nil, nil)
+			}
+		} else {
+			cache, _ = cdi.NewCache(cdi.WithSpecDirs(dirs...), cdi.WithAutoRefresh(false))
+		}
 		before := snapshot(sandbox)
 		werr := cache.WriteSpec(raw, name)
 		after := snapshot(sandbox)
@@ -335,17 +354,21 @@ func main() {
 			for _, decoys := range []bool{false, true} {
 				for _, api := range []string{"ForSpec", "ByParts"} {
 					cases = append(cases, Case{Kind: k, Dirs: dc, Decoys: decoys, Api: api})
+					cases = append(cases, Case{Kind: k, Dirs: dc, Decoys: decoys, Api: api, Reconf: true})
 					for _, id := range ids {
 						if api == "ByParts" && !r.Thorough() && len(id) > 2 {
 							continue
 						}
 						cases = append(cases, Case{Kind: k, UseID: true, ID: []byte(id), IDStr: fmt.Sprintf("%q", id), Dirs: dc, Decoys: decoys, Api: api})
+						if len(id) <= 1 {
+							cases = append(cases, Case{Kind: k, UseID: true, ID: []byte(id), IDStr: fmt.Sprintf("%q", id), Dirs: dc, Decoys: decoys, Api: api, Reconf: true})
+						}
 					}
 				}
 			}
 		}
 	}
-	r.Rule = fmt.Sprintf("%d Spec kinds (dots in vendor/class, classes ending in .json/.yaml, one-letter) x transient ids = every string of 0..%d tokens over %q (plus the non-transient name) x %d directory configurations (1-3 directories, last present / missing / nested missing / non-clean / repeated) x decoys (same name in lower directories, siblings, old file at the target, neighbours named after the target: other extension, no extension, .bak/.tmp/hidden) x both name APIs; "+
+	r.Rule = fmt.Sprintf("%d Spec kinds (dots in vendor/class, classes ending in .json/.yaml, one-letter) x transient ids = every string of 0..%d tokens over %q (plus the non-transient name) x %d directory configurations (1-3 directories, last present / missing / nested missing / non-clean / repeated) x decoys (same name in lower directories, siblings, old file at the target, neighbours named after the target: other extension, no extension, .bak/.tmp/hidden) x both name APIs, and (non-transient names and ids of <=1 byte) on a cache with a past: created for other directories, used to write and remove a Spec there, then reconfigured; "+
 		"sequence per case: WriteSpec, Refresh+GetDevice, WriteSpec again, RemoveSpec, RemoveSpec again, with a snapshot (paths, types, content hashes) of a sandbox three levels above the Spec directories before and after every step. "+
 		"Oracle: name is one path component; exactly one file created/replaced at the model path with the model encoding; top precedence after refresh; remove deletes exactly that file; removing an absent name succeeds. Distinct by construction; all non-trivial",
 		len(kindsUnderTest), maxTok, idTokens, len(dirConfigs))
